@@ -307,23 +307,33 @@ def r_conversion_sites(P, rep, rule):
         a = Obj('Node', lazy=True, label='A')
         A['a'] = a
         return [a, Obj('Token', lazy=True, label='tok'), Sym('k', 'int')]
-    outs = [(ctx, o[1]) for ctx, o in it2.explore('new_inc_dec', mk2) if o[0] == 'ret']
-    ok = False
-    detail = 'no single result'
-    if len(outs) == 1:
-        ctx, r = outs[0]
+    try:
+        outs = [(ctx, o[1]) for ctx, o in it2.explore('new_inc_dec', mk2, max_paths=400) if o[0] == 'ret']
+    except Exception as e:       # a lowering that does not go through the cut constructors: its meaning is decided by R01.15 (lib_c01unary.r_incdec)
+        outs = []
+    # every path that uses the recompute-the-old-value form (T)((A += k) - k') must use it with k' == k and T the operand's type, for every k;
+    # paths with another lowering (e.g. a saved old value) are judged by their meaning in R01.15, not by shape
+    n_formula = 0
+    for ctx, r in outs:
         try:
             cast = r
+            if not (isinstance(cast, Obj) and cast.fields.get('kind') == 'new_cast'):
+                continue
             add2 = cast.fields['args'][0]
+            if not (isinstance(add2, Obj) and add2.fields.get('kind') == 'new_add'):
+                continue
             asg = add2.fields['args'][0]
+            if not (isinstance(asg, Obj) and asg.fields.get('kind') == 'to_assign'):
+                continue
             add1 = asg.fields['args'][0]
             k1 = add1.fields['args'][1].fields.get('val'); k2 = add2.fields['args'][1].fields.get('val')
             from .interp import Lin
             opp = Lin.of(k1).add(Lin.of(k2)) == 0 and repr(k1) == 'k'
-            ty_ok = cast.fields['kind'] == 'new_cast' and getattr(it2.settle(cast.fields['args'][1]) if isinstance(cast.fields['args'][1], View) else cast.fields['args'][1], 'label', '') .startswith('A.ty') or 'A.ty' in repr(cast.fields['args'][1])
-            ok = cast.fields['kind'] == 'new_cast' and add2.fields['kind'] == 'new_add' and asg.fields['kind'] == 'to_assign' and add1.fields['kind'] == 'new_add' \
-                and add1.fields['args'][0] is A['a'] and opp and ty_ok
+            ty_ok = getattr(it2.settle(cast.fields['args'][1]) if isinstance(cast.fields['args'][1], View) else cast.fields['args'][1], 'label', '') .startswith('A.ty') or 'A.ty' in repr(cast.fields['args'][1])
+            ok = add1.fields['kind'] == 'new_add' and add1.fields['args'][0] is A['a'] and opp and ty_ok
             detail = 'built %s(%s(%s(%s(A, %r)), %r), %r)' % (cast.fields['kind'], add2.fields['kind'], asg.fields['kind'], add1.fields['kind'], k1, k2, cast.fields['args'][1])
         except Exception as e:
-            detail = 'unexpected tree shape (%s)' % e
-    rep.ob(rule, 'parse.c:new_inc_dec:postfix-shape', ok, 'A++ / A-- must be (typeof A)((A += k) - k): %s' % detail, where=where)
+            continue
+        n_formula += 1
+        rep.ob(rule, 'parse.c:new_inc_dec:postfix-shape', ok, 'A++ / A-- lowered as (typeof A)((A += k) - k): %s' % detail, where=where)
+    return n_formula
